@@ -100,6 +100,16 @@ def applyPass (cfg : Cfg) (db : Db) (f h : Nat) (sel : Nat → Bool) : Db :=
         | .error _ => db.blk b
       else db.blk b }
 
+/-- The partial batch of a range whose ingest loop returned early: the new entries of its first
+`k` blocks, no deletion of old entries. -/
+def applyPartial (cfg : Cfg) (db : Db) (f h r k : Nat) : Db :=
+  { db with blk := fun b =>
+      if f + r * batchSize ≤ b ∧ b < f + r * batchSize + k ∧ b < f + (r + 1) * batchSize ∧ b ≤ h then
+        match ingestBlk cfg (db.blk b) with
+        | .ok x => { db.blk b with blob := x.blob }
+        | .error _ => db.blk b
+      else db.blk b }
+
 /-- The repaired final step: every block without a blob must be an empty block and gets the
 empty blob (one batch). `.error` = a block without blob whose header announces transactions. -/
 def backfill (db : Db) (h : Nat) : Except Unit Db :=
@@ -129,6 +139,14 @@ inductive Step
   cancelled; of the emitted ranges those selected had been (or still get) committed. `Migrate`
   returns `(shouldRerun, err)`. In the final step: the back-fill / clearing write fails. -/
   | writeFail (emit : Option Nat) (sel : List Bool)
+  /-- A READ fails while range number `r` is being ingested, at its `k`-th block (header fetch,
+  transaction / receipt scan, `Has`): `ingestBlockRange` returns early, the pipeline is cancelled, and
+  `Done` still hands the worker's batch to the committer. That batch holds the complete earlier
+  ranges of the worker and, for range `r`, only the `Put`s of its first `k` blocks — the deletion of
+  the old entries of the range comes after the loop and was never added. With a persistent fault
+  several workers fail, each in its own range. `sel`: which complete ranges were committed;
+  `partials`: the `(r, k)` whose partial batch was committed. `(shouldRerun, err)`. -/
+  | ingestError (emit : Option Nat) (sel : List Bool) (partials : List (Nat × Nat))
 
 def selOf (l : List Bool) (i : Nat) : Bool := l.getD i false
 
@@ -145,6 +163,7 @@ def iteration (cfg : Cfg) (db : Db) (h : Nat) (st : Step) : Db × Option Ret :=
       | .crashFinal => (db, some .crashed)
       | .crash _ _ => (db, some .crashed)
       | .writeFail _ _ => (db, some .failed)
+      | .ingestError _ _ _ => (db, some .failed)
       | _ =>
         if cfg.skipUnstoredEmpty then (db, some .done)
         else match backfill db h with
@@ -160,6 +179,10 @@ def iteration (cfg : Cfg) (db : Db) (h : Nat) (st : Step) : Db × Option Ret :=
       | .writeFail emit sel =>
         let e := min (emit.getD all) all
         (applyPass cfg db f h (fun i => decide (i < e) && selOf sel i), some .failed)
+      | .ingestError emit sel partials =>
+        let e := min (emit.getD all) all
+        let db1 := applyPass cfg db f h (fun i => decide (i < e) && !(partials.any (fun p => p.1 == i)) && selOf sel i)
+        (partials.foldl (fun d p => applyPartial cfg d f h p.1 p.2) db1, some .failed)
       | .pass emit =>
         let e := min (emit.getD all) all
         if passFails cfg db f h e then (db, some .failed)
